@@ -127,40 +127,48 @@ Theorem C13_unknown_cluster_empty : forall c,
 Proof. exact unknown_cluster_empty. Qed.
 Print Assumptions C13_unknown_cluster_empty.
 
-(* locality weight = sum of the member weights as long as the sum is below 2^32 (both code paths) *)
-Theorem C13_weights_partial : forall c g,
-  In g (build_cla c) -> snd g <> [] -> (plain_sum (map m_weight (snd g)) < U32MOD)%N ->
-  snd (fst g) = Some (plain_sum (map m_weight (snd g))).
-Proof. exact weights_exact. Qed.
-Print Assumptions C13_weights_partial.
-
-(* the two overflow behaviours of the code *)
-Theorem C13_weights_single_network_saturates : forall c g,
-  multi_network c = false -> In g (build_cla c) ->
-  Forall (fun w => (w <= U32MAX)%N) (map m_weight (snd g)) ->
+(* locality weight = min(sum of the member weights, 2^32-1), with and without gateways (generate and
+   refreshWeight both saturate); member weights are uint32 *)
+Theorem C13_weights : forall c g,
+  In g (build_cla c) -> snd g <> [] -> Forall (fun w => (w <= U32MAX)%N) (map m_weight (snd g)) ->
   snd (fst g) = Some (N.min (plain_sum (map m_weight (snd g))) U32MAX).
-Proof. exact weights_plain. Qed.
-Print Assumptions C13_weights_single_network_saturates.
+Proof. exact weights. Qed.
+Print Assumptions C13_weights.
 
-Theorem C13_weights_multi_network_wraps : forall c g,
-  multi_network c = true -> In g (build_cla c) ->
-  snd (fst g) = match snd g with [] => None | ms => Some (plain_sum (map m_weight ms) mod U32MOD)%N end.
-Proof. exact weights_multi. Qed.
-Print Assumptions C13_weights_multi_network_wraps.
+(* a locality left without members by the network filter carries no weight; a single-network
+   assignment has no such locality *)
+Theorem C13_weights_full : forall c g,
+  In g (build_cla c) -> Forall (fun w => (w <= U32MAX)%N) (map m_weight (snd g)) ->
+  snd (fst g) = match snd g with
+                | [] => if multi_network c then None else Some 0%N
+                | ms => Some (N.min (plain_sum (map m_weight ms)) U32MAX)
+                end.
+Proof. exact weights_full. Qed.
+Print Assumptions C13_weights_full.
 
-(* K12: "weight = saturating sum" is false at or above 2^32 once the network filter ran *)
-Theorem C13_weights_refuted :
-  exists c g, In g (build_cla c) /\ snd g <> [] /\
-    Forall (fun w => (w <= U32MAX)%N) (map m_weight (snd g)) /\
-    snd (fst g) <> Some (N.min (plain_sum (map m_weight (snd g))) U32MAX).
-Proof. exact weights_refuted. Qed.
-Print Assumptions C13_weights_refuted.
+Theorem C13_single_network_localities_nonempty : forall c g,
+  multi_network c = false -> In g (build_cla c) -> snd g <> [].
+Proof. exact plain_groups_nonempty. Qed.
+Print Assumptions C13_single_network_localities_nonempty.
+
+(* consistent weights: the same members get the same locality weight whichever path produced them *)
+Theorem C13_weights_consistent : forall c1 c2 g1 g2,
+  In g1 (build_cla c1) -> In g2 (build_cla c2) -> snd g1 = snd g2 -> snd g1 <> [] ->
+  Forall (fun w => (w <= U32MAX)%N) (map m_weight (snd g1)) ->
+  snd (fst g1) = snd (fst g2).
+Proof. exact weights_consistent. Qed.
+Print Assumptions C13_weights_consistent.
 
 (* non-vacuity *)
 Example C13_spec_nonvacuous :
   spec [Update regA 1 1 [mkep 1 1 1]; Update regB 1 1 [mkep 2 2 1]; DelShard regA] (1%N, 1%N) regB = Some [mkep 2 2 1] /\
   spec [Update regA 1 1 [mkep 1 1 1]; Update regB 1 1 [mkep 2 2 1]; DelShard regA] (1%N, 1%N) regA = None.
 Proof. split; reflexivity. Qed.
+Example C13_weights_at_the_boundary :
+  map (fun g : lgroup => snd g) (build_cla (k12_in [])) = map (fun g : lgroup => snd g) (build_cla (k12_in [k12_gw])) /\
+  map (fun g : lgroup => snd (fst g)) (build_cla (k12_in [])) = [Some U32MAX] /\
+  map (fun g : lgroup => snd (fst g)) (build_cla (k12_in [k12_gw])) = [Some U32MAX].
+Proof. exact weights_example. Qed.
 Example C13_membership_nonvacuous :
   exists m, In m (flat_map (fun g : lgroup => snd g) (build_cla (k12_in []))) /\ m_addr m = 1%N.
 Proof. eexists. split; [vm_compute; left; reflexivity | reflexivity]. Qed.
